@@ -179,6 +179,10 @@ simqueue = _load('queue', 'queue.py', {
     'threading': simthreading, 'time': sim_time,
     '_queue': ImportError('withheld: pure-python SimpleQueue wanted')})
 
+# code under test may catch the real queue.Empty / queue.Full
+simqueue.Empty = _real_queue.Empty
+simqueue.Full = _real_queue.Full
+
 sim_cf_base = _load('concurrent.futures._base', 'concurrent/futures/_base.py', {
     'threading': simthreading, 'time': sim_time}, package='concurrent.futures')
 # share exception classes with the real package: s3transfer.exceptions
